@@ -38,3 +38,73 @@ PROPS["C07"] = {
         "reachability and positions are recomputed by the harness' own DFS over the same successor lists",
     ],
 }
+
+ENGINES += [
+    {"name": "model", "path": "harness/h_model.cc", "serves_properties": ["C19"],
+     "kind_free_text": "executable-model monitor: separate_domain / patricia_tree_set / discrete_domain against std::map / std::set after every operation"},
+    {"name": "num", "path": "harness/h_num.cc + pycheck/numcheck.py", "serves_properties": ["C20", "C13"],
+     "kind_free_text": "event-log producer over the real number classes + offline checker recomputing every record with Python ints/Fractions; in-process monitor for linear expressions and constraints on __int128 valuations"},
+]
+
+_ENVS = ["env_interval", "env_congruence", "env_constant", "env_sign", "env_bool", "set"]
+PROPS["C19"] = {
+    "technique": "executable reference model (std::map / std::set) compared with the real containers after every operation of random histories, under ASan+UBSan",
+    "level_text": "random operation histories (set, forget, join-binding, join, meet, widening, narrowing, rename, project, copy, inclusion, equality) over 4 environments sharing structure, keys with arbitrary 64-bit indices, 5 value lattices; after every step every key is looked up, iteration, is_top/is_bottom/size and <=/== are compared with a std::map model. Sets likewise against std::set. Held on the histories run.",
+    "level_note": "value-lattice operations (interval join etc.) are taken from crab itself (C08 checks them); rename is exercised under its documented precondition (targets unbound); discrete_pair_domain is not modelled",
+    "rule": "a case is one history of 8-48 operations over a pool of 4 containers and 2-16 keys; non-trivial = some environment reached >=3 bindings or a binary operation was applied; distinct = hash of the printed history",
+    "abort_is_violation": True,
+    "heap_error_is_violation": True,
+    "jobs": {
+        "quick": [{"name": e, "bin": "model", "engine": e, "cases": 4000} for e in _ENVS],
+        "thorough": [{"name": e, "bin": "model", "engine": e, "cases": 170000} for e in _ENVS],
+    },
+    "floor": {"quick": 10000, "thorough": 400000},
+    "counter_floors": {"quick": {"leq_false_derived": 1000, "leq_true_derived": 1000, "project_remove_branch": 50, "project_copy_branch": 50, "subset_true": 1000}},
+    "assumptions": ["a heap error reported by ASan inside the workload is a violation of this property (broken container)"],
+}
+
+PROPS["C20"] = {
+    "technique": "offline checker over a recorded event log of the real number classes (Python unbounded ints / Fractions recompute every record) + in-process homomorphism / complement monitors on __int128 valuations; UBSan on the 64-bit import/export paths",
+    "level_text": "hundreds of thousands of logged z_number / q_number / safe_i64 operations with boundary operands (0, +-1, +-2^31, +-2^63, 2^64, up to 2^256) are recomputed offline; linear expressions, constraint negation, tautology tests, strict->non-strict and system normalisation are evaluated on random and boundary valuations. Held on the records produced.",
+    "level_note": "trusts Python int/Fraction arithmetic and the harness' spec-side evaluation; shift counts 0..200; division by zero must be the loud error",
+    "rule": "a case is one logged operation (operator, operands, result) or one linear-constraint scenario (2 expressions, 4 constraints, one system, 6-12 valuations each); every checked record counts as non-trivial; distinct = hash of the record text / of the printed expressions and system",
+    "abort_is_violation": True,
+    "san_violation_files": ["lib/safeint.cpp*", "include/crab/numbers/safeint.hpp*"],
+    "jobs": {
+        "quick": [
+            {"name": "z", "bin": "num", "engine": "z", "runner": "pycheck/numcheck.py", "cases": 150000},
+            {"name": "q", "bin": "num", "engine": "q", "runner": "pycheck/numcheck.py", "cases": 80000},
+            {"name": "safe", "bin": "num", "engine": "safe", "runner": "pycheck/numcheck.py", "cases": 80000},
+            {"name": "lin", "bin": "num", "engine": "lin", "cases": 30000},
+        ],
+        "thorough": [
+            {"name": "z", "bin": "num", "engine": "z", "runner": "pycheck/numcheck.py", "cases": 3000000},
+            {"name": "q", "bin": "num", "engine": "q", "runner": "pycheck/numcheck.py", "cases": 1000000},
+            {"name": "safe", "bin": "num", "engine": "safe", "runner": "pycheck/numcheck.py", "cases": 1000000},
+            {"name": "lin", "bin": "num", "engine": "lin", "cases": 600000},
+        ],
+    },
+    "floor": {"quick": 100000, "thorough": 2000000},
+    "assumptions": ["UBSan reports inside safeint are violations (silent wrap); elsewhere they are notes and the value oracle decides"],
+}
+
+PROPS["C13"] = {
+    "technique": "offline checker over a recorded event log of wrapint operations (exhaustive for widths 1-6, boundary + random for 7-64), recomputed with Python integers modulo 2^w",
+    "level_text": "every operand pair of every wrapint operation at widths 1..6 and boundary/random operands at widths 7..64 are logged from the real class and recomputed offline modulo 2^w. Held on the records produced.",
+    "level_note": "shift counts >= width and big integers outside fits_wrapint are out of model (skipped, counted); trusts Python integer arithmetic",
+    "rule": "a case is one logged wrapint operation (op, width, operands, result); exhaustive enumeration for widths 1..6; distinct = hash of the record",
+    "abort_is_violation": True,
+    "jobs": {
+        "quick": [
+            {"name": "w_exh", "bin": "num", "engine": "w_exh", "runner": "pycheck/numcheck.py", "cases": "all"},
+            {"name": "w_rand", "bin": "num", "engine": "w_rand", "runner": "pycheck/numcheck.py", "cases": 300000},
+        ],
+        "thorough": [
+            {"name": "w_exh", "bin": "num", "engine": "w_exh", "runner": "pycheck/numcheck.py", "cases": "all"},
+            {"name": "w_rand", "bin": "num", "engine": "w_rand", "runner": "pycheck/numcheck.py", "cases": 6000000},
+        ],
+    },
+    "floor": {"quick": 100000, "thorough": 1000000},
+    "exhaustive": {"quick": False, "thorough": False},
+    "assumptions": [],
+}
